@@ -9,6 +9,8 @@
 (*              declared domain, and .domain equals the declared domain    *)
 (*   nobl       number of exactness obligations discharged                 *)
 (*   ndef       number of node/weight values compared with the definition  *)
+(*   nint       number of obligations discharged through .integrate        *)
+(*   nform      number of call forms replayed and judged                   *)
 (* so that no case and no obligation can be skipped silently.              *)
 (* oned_obs.json: rule name -> sequence of records aligned with CasesOf.   *)
 (* Mismatches are printed (all of them), the invariant itself stays TRUE.  *)
@@ -16,6 +18,13 @@
 EXTENDS MC_OneD
 
 ObsAll == JsonDeserialize("oned_obs.json")
+(* oned_sig.json: what the harness read off the library itself before any case was built:   *)
+(*   classes   names of all OneDGrid subclasses defined in grid.onedgrid                    *)
+(*   defaults  rule name -> default of the optional parameter declared by the signature of  *)
+(*             the constructor as a rational <<p, q>>, <<0, 0>> if there is none / it is    *)
+(*             not a small rational                                                          *)
+SigAll == JsonDeserialize("oned_sig.json")
+DefaultOf(r_) == SigAll.defaults[r_]
 
 ExpectedObl(c_) == IF Family(c_.rule) = "none" THEN 0
                    ELSE IF Family(c_.rule) = "sine" THEN c_.n
@@ -23,6 +32,11 @@ ExpectedObl(c_) == IF Family(c_.rule) = "none" THEN 0
 \* Gauss rules have no closed form (characterised by exactness); a mapped rule over a Gauss
 \* base is compared with the map applied to the base rule's own nodes
 ExpectedDef(c_) == IF Kind(c_.rule) = "gauss" THEN 0 ELSE 2 * c_.n
+\* obligations discharged through OneDGrid.integrate: every obligation as "product" and as
+\* "factors", plus the squares of the orthonormal family (OneD.tla section 7b)
+ExpectedInt(c_) == 2 * ExpectedObl(c_) + SquareCount(c_.rule, c_.n)
+\* call forms replayed and judged (OneD.tla section 7b)
+ExpectedForms(c_) == Cardinality(FormsOf(c_, DefaultOf(c_.rule)))
 
 IndexOf(r_, c_) == CHOOSE q_ \in 1..Len(CasesOf[r_]) : CasesOf[r_][q_] = c_
 ObsOfCase == ObsAll[vrule][IndexOf(vrule, vcase)]
@@ -30,10 +44,25 @@ Agrees(o_) ==
     /\ o_.n = vcase.n /\ o_.par = vcase.par /\ o_.base = vcase.base
     /\ (o_.built =>
           /\ o_.size = vcase.n /\ o_.asc /\ o_.dom
-          /\ o_.nobl = ExpectedObl(vcase) /\ o_.ndef = ExpectedDef(vcase))
+          /\ o_.nobl = ExpectedObl(vcase) /\ o_.ndef = ExpectedDef(vcase)
+          /\ o_.nint = ExpectedInt(vcase) /\ o_.nform = ExpectedForms(vcase))
 AuditOK ==
     AtCase => \/ Agrees(ObsOfCase)
               \/ PrintT(<<"MISMATCH", vcase, ObsOfCase,
-                          [size |-> vcase.n, nobl |-> ExpectedObl(vcase), ndef |-> ExpectedDef(vcase)]>>)
+                          [size |-> vcase.n, nobl |-> ExpectedObl(vcase), ndef |-> ExpectedDef(vcase),
+                           nint |-> ExpectedInt(vcase), nform |-> ExpectedForms(vcase)]>>)
 AuditComplete == AtStatic => \A r_ \in Rules : Len(ObsAll[r_]) = Len(CasesOf[r_])
+\* "for all rule classes": every OneDGrid subclass the library defines is in the catalogue (a
+\* class the specification does not know cannot be judged and must not pass silently) ...
+AuditCatalogue ==
+    AtStatic => \A q_ \in 1..Len(SigAll.classes) :
+                    SigAll.classes[q_] \in Rules \/ PrintT(<<"UNCATALOGUED", SigAll.classes[q_]>>)
+\* ... and the default of every optional parameter is an admissible value of it (the request
+\* without the optional argument is a request of the statement)
+DefaultKnown(r_) == DefaultOf(r_)[2] > 0
+AuditDefaults ==
+    AtStatic => \A r_ \in Rules :
+                    \/ ParKind(r_) = "none"
+                    \/ DefaultKnown(r_) /\ AdmissiblePar(r_, MinN(r_), DefaultOf(r_))
+                    \/ PrintT(<<"BADDEFAULT", r_, DefaultOf(r_)>>)
 =============================================================================
